@@ -158,8 +158,10 @@ type oblRecord struct {
 func (r *Run) finish() {
 	timeout := 20
 	all := false
+	searchTimeoutSec = 8
 	if r.Tier == "thorough" {
 		timeout = 120
+		searchTimeoutSec = 300
 		all = true
 	}
 	dir, _ := os.MkdirTemp("", "govc-"+r.Prop+"-")
@@ -179,6 +181,7 @@ func (r *Run) finish() {
 	expect, haveExpect := r.loadExpect()
 	known := r.loadKnown()
 	violations := 0
+	boundedOK := 0
 	undecided := 0
 	knownSeen := []string{}
 	discharged := 0
@@ -218,8 +221,18 @@ func (r *Run) finish() {
 			continue
 		}
 		_, isPinned := expect[o.Name]
+		if o.Search && (o.Status == "unknown") {
+			r.Bounded = append(r.Bounded, fmt.Sprintf("bounded: %s — counterexample search only (the proof is beyond the solvers); no counterexample within %ds on any solver; not counted as proved", o.Name, searchTimeoutSec))
+			boundedOK++
+			continue
+		}
 		if o.Status == "sat" || o.Status == "disagree" || isPinned || !haveExpect {
 			violations++
+			if o.Status == "sat" && !r.NoReplay {
+				o.StrIDs = o.Ctx.strIDs()
+				rr := r.tryReplay(o)
+				o.Replay = &rr
+			}
 			path := r.writeReplay(o, where)
 			suffix := ""
 			if !r.replayed(o) {
@@ -283,7 +296,8 @@ func (r *Run) finish() {
 		"violations":  violations,
 		"assumptions": append(notes, r.Bounded...),
 		"coverage": map[string]interface{}{
-			"obligations":         len(r.Obls),
+			"obligations":         len(r.Obls) - boundedOK - len(knownSeen),
+			"bounded_searches":    boundedOK,
 			"discharged":          discharged,
 			"checker_cmd":         fmt.Sprintf("bin/govc check -prop %s -tier %s (VC generation over go/ssa of %s; back ends z3 4.8.12, z3 5.1.0, cvc5 1.0 raced per obligation)", r.Prop, r.Tier, r.Repo),
 			"trusted_base":        trusted,
@@ -371,7 +385,16 @@ func (r *Run) addLemmas(prop string) {}
 func (r *Run) addTables(prop string) {}
 
 // replay support (see replay.go)
-func (r *Run) replayed(o *Oblig) bool { return false }
+func (r *Run) replayed(o *Oblig) bool { return o.Replay != nil && o.Replay.Confirmed }
+
+// strIDs maps the numeric identities of string literals back to their text.
+func (c *Ctx) strIDs() map[string]string {
+	m := map[string]string{"0": ""}
+	for i, s := range c.strOrder {
+		m[fmt.Sprint((1<<62)+i+1)] = s
+	}
+	return m
+}
 
 func (r *Run) writeReplay(o *Oblig, where string) string {
 	dir := filepath.Join(r.Out, "replays", r.Prop)
@@ -381,6 +404,13 @@ func (r *Run) writeReplay(o *Oblig, where string) string {
 	fmt.Fprintf(&b, "property: %s\nfailed obligation: %s\nkind: %s\nspec: %s\nfunction: %s\nat: %s\nsolver verdict: %s (%s)\n\n", r.Prop, o.Name, o.Kind, o.Text, o.Func, where, o.Status, o.Solver)
 	if len(o.CexVals) > 0 {
 		fmt.Fprintf(&b, "---- counterexample (model values; in.* = inputs at entry, out.* = values at the failing return) ----\n%s\n", formatCex(o, o.CexVals))
+	}
+	if o.Replay != nil {
+		rp := o.Replay
+		fmt.Fprintf(&b, "---- replay on the real code ----\nattempted: %v\nconfirmed: %v\n%s\n", rp.Attempted, rp.Confirmed, rp.Reason)
+		if rp.Attempted {
+			fmt.Fprintf(&b, "command: %s\n\n-- zz_verif_replay_test.go --\n%s\n-- output --\n%s\n", rp.Cmd, rp.TestFile, head(rp.Output, 4000))
+		}
 	}
 	fmt.Fprintf(&b, "---- solver output ----\n%s\n", head(o.Output, 20000))
 	if o.FailedPart < len(o.Parts) {
